@@ -388,6 +388,33 @@ def generate():
         names.append(p_ + '_shape' if k == 'ids' else None)
         names.append(p_)
     q.append('  pure { ' + ', '.join(n for n in names if n) + ' }')
+    # ---- printer (same token format), used by the `shapelife` command
+    q.append('def sShape (l : List Int) : String := " ".intercalate (toString l.length :: l.map toString)')
+    q.append('def sOpt {β : Type} (f : β → String) : Option β → String')
+    q.append('  | none => "0"')
+    q.append('  | some v => "1 " ++ f v')
+    q.append('def sRat (x : Rat) : String := toString x.num ++ " " ++ toString x.den')
+    q.append('def sCoordList (l : List (Bool × Int)) : String :=')
+    q.append('  " ".intercalate (toString l.length :: l.map fun e => (if e.1 then "1 " else "0 ") ++ toString e.2)')
+    q.append('def printCfg (c : Cfg) : String := " ".intercalate [')
+    items = []
+    for p_, k, _ in fields:
+        if k in ('arr3', 'arr2'):
+            items.append('  sShape c.%s' % p_)
+        elif k == 'ids':
+            items.append('  sShape c.%s_shape' % p_)
+            items.append('  sShape c.%s' % p_)
+        elif k == 'optarr':
+            items.append('  sOpt sShape c.%s' % p_)
+        elif k == 'optscalar':
+            items.append('  sOpt sRat c.%s' % p_)
+        elif k == 'optlist':
+            items.append('  sOpt (fun (n : Nat) => toString n) c.%s' % p_)
+        elif k == 'int':
+            items.append('  toString c.%s' % p_)
+        elif k == 'coordlist':
+            items.append('  sOpt sCoordList c.%s' % p_)
+    q.append(',\n'.join(items) + ']')
     q.append('end Sparrow.Generated')
     global PARSER_TEXT
     PARSER_TEXT = '\n'.join(q) + '\n'
